@@ -22,7 +22,8 @@ HAND = [
     ("typedef int T;\ntypedef T U;\nU u0;\nvoid f(void)\n{\n typedef char T;\n U u1;\n typedef T V;\n V v1;\n}\n",
      {("Variable", "u0", 3): "(TD_U@2=>Int_S)", ("Variable", "u1", 7): "(TD_U@2=>Int_S)", ("Variable", "v1", 9): "(TD_V@8=>Char)"}),
     ("struct S;\ntypedef struct S TS;\nstruct S { int m; };\nTS *p;\nvoid f(void)\n{\n struct S { char c; };\n struct S q;\n TS *r;\n}\n",
-     {("Variable", "p", 4): "(Ptr_(TD_TS@2=>(Tag_struct_S@1)))", ("Variable", "q", 8): "(Tag_struct_S@7)", ("Variable", "r", 9): "(Ptr_(TD_TS@2=>(Tag_struct_S@1)))"}),
+     # the tag of line 1 is completed on line 3 (one entity; the front end names the completing declaration since the repair of forward-declared tags)
+     {("Variable", "p", 4): "(Ptr_(TD_TS@2=>(Tag_struct_S@3)))", ("Variable", "q", 8): "(Tag_struct_S@7)", ("Variable", "r", 9): "(Ptr_(TD_TS@2=>(Tag_struct_S@3)))"}),
     ("typedef int A0;\ntypedef A0 A1;\ntypedef A1 A2;\ntypedef A2 A3;\ntypedef A3 A4;\ntypedef A4 A5;\ntypedef A5 A6;\ntypedef A6 A7;\ntypedef A7 A8;\ntypedef A8 A9;\ntypedef A9 A10;\ntypedef A10 A11;\nA11 z;\n",
      {("Variable", "z", 13): "(TD_A11@12=>Int_S)"}),
     ("typedef int *P;\ntypedef P A[2];\ntypedef A *Q;\nQ q;\ntypedef const P CP;\nCP cp;\n",
@@ -114,6 +115,10 @@ def run(ctx):
     for (g, text), line, ans, mod in zip(gens, lines[len(HAND):], impl[len(HAND):], model):
         stats.update({k: v for k, v in g.stats.items() if k != "maxchain"})
         stats["maxchain"] = max(stats["maxchain"], g.stats["maxchain"])
+        if getattr(g, "tag_alias", None):
+            # a tag declared without content and completed later in the same scope is one entity: the front end names the completing
+            # declaration (since the repair of forward-declared tags), the generator the first one - both are the declaration C selects
+            ans = re.sub(r"\(Tag_(\w+?)_(\w+)@(\d+)\)", lambda m: "(Tag_%s_%s@%d)" % (m.group(1), m.group(2), g.tag_alias.get((m.group(1), m.group(2), int(m.group(3))), int(m.group(3)))), ans)
         got = judge(text, line, ans, g.expect, "decl")
         if got is None:
             continue
